@@ -26,14 +26,23 @@ type stCase struct {
 func stSchema(p model.Project, l model.Layout) (*jschema.JSchema, string, error) {
 	text := l.Print(p)
 	s := jschema.New("root", text)
-	for n, t := range model.SupportTypes {
-		if err := s.AddType(n, jschema.New(n, t)); err != nil {
+	var ferr error
+	rejected := false
+	eachSupport(model.SupportTypes, func(n, t string) bool {
+		if err := regSupport(s, n, t); err != nil {
 			if jschema.New("root", text).Check() != nil {
-				return s, text, nil // the root text itself is rejected: AddType reports the root's load error
+				rejected = true // the root text itself is rejected: AddType reports the root's load error
+				return false
 			}
-			return nil, text, fmt.Errorf("AddType(%s): %v", n, err)
+			ferr = fmt.Errorf("AddType(%s): %v", n, err)
+			return false
 		}
+		return true
+	})
+	if ferr != nil {
+		return nil, text, ferr
 	}
+	_ = rejected
 	return s, text, nil
 }
 
@@ -203,6 +212,8 @@ func stLayouts(thorough bool) []model.Layout {
 			out = append(out, model.Layout{NL: "\n", Multi: multi, Quote: q})
 		}
 	}
+	// padding that ends in a tab, with each annotation style
+	out = append(out, model.Layout{NL: "\n", Multi: 0, Pad: 3}, model.Layout{NL: "\n", Multi: 1, Pad: 4, Quote: 4}, model.Layout{NL: "\r\n", Multi: 2, Pad: 3, Quote: 1})
 	if thorough {
 		out = append(out, model.Layout{NL: "\r\n", Multi: 0, Pad: 1}, model.Layout{NL: "\n", Multi: 2, Quote: 3, Pad: 2, LeadBlank: 1, TailBlank: 2})
 	}
